@@ -37,6 +37,9 @@ func New() run.Check { return &check{} }
 
 const podsPerCase = 100
 
+// savedSigs: signature -> replay file already written by this worker process.
+var savedSigs = map[string]string{}
+
 func (*check) ID() string    { return "C19" }
 func (*check) Level() string { return "exploration" }
 func (*check) NumCases(tier string) int {
@@ -66,7 +69,7 @@ func (*check) Assumptions() []string {
 	}
 }
 func (*check) CaseTimeout() time.Duration { return 180 * time.Second }
-func (*check) CrashIsViolation() bool      { return true }
+func (*check) CrashIsViolation() bool     { return true }
 
 // replayFile is the replay format.
 type replayFile struct {
@@ -74,8 +77,8 @@ type replayFile struct {
 	Seed       int64           `json:"seed"`
 	Index      int             `json:"index"`
 	Tier       string          `json:"tier"`
-	Pods       []*PodIn        `json:"pods"`            // the whole case (input)
-	Violating  []*PodRecord    `json:"violatingPods"`   // input + three verdicts of every pod with a finding
+	Pods       []*PodIn        `json:"pods"`          // the whole case (input)
+	Violating  []*PodRecord    `json:"violatingPods"` // input + three verdicts of every pod with a finding
 	Cycle      *cycleResult    `json:"realCycle,omitempty"`
 	Violations []run.Violation `json:"violations"`
 }
@@ -158,6 +161,9 @@ func (c *check) runPods(seed int64, index int, tier string, pods []*PodIn, withC
 			rec.Bind.Skipped = "devices-out-of-1..8"
 		case rec.Sched.Memory > nodeGPUMem:
 			rec.Bind.Skipped = "memory-exceeds-device"
+		case !rec.valid:
+			// whether the scheduler ever places such a pod is decided by the real cycle (sampled first), not forced here
+			rec.Bind.Skipped = "invalid-request-left-to-real-cycle"
 		default:
 			groups := make([]string, rec.Sched.Devices)
 			for i := range groups {
@@ -177,7 +183,9 @@ func (c *check) runPods(seed int64, index int, tier string, pods []*PodIn, withC
 				}
 			}
 			rec.Bind = be.bind(m1, bindRequestFor(task), false)
+			be.cleanup()
 		}
+		rec.judge(nodeGPUMem)
 	}
 
 	// 4. one real scheduler cycle + real binder over a sample
@@ -201,9 +209,15 @@ func (c *check) runPods(seed int64, index int, tier string, pods []*PodIn, withC
 	var bad []*PodRecord
 	acceptedSharingBound, rejectedMalformed := 0, 0
 	for _, rec := range recs {
-		rec.judge(nodeGPUMem)
+		rec.judgeCycle(nodeGPUMem)
 		in := rec.In
 		cnt["pods"]++
+		if rec.CycleOutcome != "" {
+			cnt["cycle.pod_"+rec.CycleOutcome]++
+			if !rec.valid {
+				cnt["cycle.invalid_request_"+rec.CycleOutcome]++
+			}
+		}
 		cnt["pods."+in.Shape]++
 		verdict := "rejected"
 		if rec.Adm.Accepted {
@@ -296,7 +310,24 @@ func (c *check) runPods(seed int64, index int, tier string, pods []*PodIn, withC
 		res.Verdict = run.Violated
 		res.Violations = viols
 		if env != nil {
-			res.Replay = env.SaveReplay("C19", seed, index, replayFile{Property: "C19", Seed: seed, Index: index, Tier: tier, Pods: pods, Violating: bad, Cycle: cyc, Violations: viols})
+			// one replay file per new signature and worker process; a case that only repeats signatures already
+			// on disk points at that file (the case itself is regenerable with --only <index>)
+			fresh := false
+			for _, v := range viols {
+				if _, ok := savedSigs[v.Sig]; !ok {
+					fresh = true
+				}
+			}
+			if fresh {
+				res.Replay = env.SaveReplay("C19", seed, index, replayFile{Property: "C19", Seed: seed, Index: index, Tier: tier, Pods: pods, Violating: bad, Cycle: cyc, Violations: viols})
+				for _, v := range viols {
+					if _, ok := savedSigs[v.Sig]; !ok {
+						savedSigs[v.Sig] = res.Replay
+					}
+				}
+			} else {
+				res.Replay = savedSigs[viols[0].Sig]
+			}
 		}
 	}
 	return res
